@@ -22,6 +22,22 @@ import numpy as np
 _INCLUDES = ("#include <stdint.h>\n#include <stdbool.h>\n#include <limits.h>\n"
              "#include <math.h>\n#include <complex.h>\n")
 
+
+def _missing_helpers(code: str) -> str:
+    """loopy's plain C target sometimes calls lpy_min_<t>/lpy_max_<t> (integer min/max
+    reductions) without emitting their definitions (only its OpenCL targets always do).
+    Define exactly those that are used but not defined (trusted-base adaptation)."""
+    out = []
+    for t in ("int8", "int16", "int32", "int64", "uint8", "uint16", "uint32", "uint64"):
+        for f, op in (("min", "<"), ("max", ">")):
+            name = f"lpy_{f}_{t}"
+            if re.search(name + r"\s*\(", code) and not re.search(
+                    name + r"\s*\([^)]*\)\s*\{", code):
+                out.append(f"static inline {t}_t {name}({t}_t a, {t}_t b) "
+                           f"{{ return a {op} b ? a : b; }}\n")
+    return "".join(out)
+
+
 CANARY = 64
 CANARY_BYTE = 0xC3
 FILL_BYTE = 0xFF
@@ -129,7 +145,7 @@ def gen_c(t_unit: Any) -> tuple[str, Any]:
 
 
 def compile_c(code: str, extra_flags: tuple[str, ...] = ()) -> Any:
-    src = _INCLUDES + code
+    src = _INCLUDES + _missing_helpers(code) + code
     key = hashlib.sha1((src + repr(extra_flags)).encode()).hexdigest()
     if key in _lib_cache:
         return _lib_cache[key]
